@@ -1096,6 +1096,12 @@ M('C01', 'tensordot labels sliced with [:-axes] (round-4 seed a)', NPC,
 M('C04', 'python _tensordot_transpose_axes compares shapes also for axes == 0 (original defect)', NPC,
   "    elif axes > 0 and a.shape[-axes:] != b.shape[:axes]:", "    elif a.shape[-axes:] != b.shape[:axes]:", 'PAIR-raise-guards')
 
+M('C02', 'ibinary_blockwise takes the dtype from the first block (round-4 seed a)', NPC,
+  """            self.dtype = np.result_type(*[d.dtype for d in self._data])
+            self._data = [np.asarray(a, dtype=self.dtype) for a in self._data]
+""", """            self.dtype = self._data[0].dtype
+""", 'DTYPE-blocks')
+
 # ---------------------------------------------------------------- C16 / C19
 M('C16', 'GMRES restart: relative residual norm used for normalisation (round-3 seed b)', KRY,
   """        self.total_error.append([npc.norm(self.rs[-1]) / self.b_norm])
